@@ -24,6 +24,11 @@ CXXFLAGS = ['-std=c++14', '-msse4', '-nostdinc++', '-I' + os.path.join(VERIF, 's
             '-fno-unroll-loops', '-Wno-everything']
 CBMC_BASE = ['--unwinding-assertions', '--drop-unused-functions', '--pointer-check', '--bounds-check',
              '--no-malloc-may-fail', '--object-bits', '10', '--sat-solver', 'cadical']
+try:
+    CBMC_VERSION = subprocess.run(['cbmc', '--version'], stdout=subprocess.PIPE).stdout.decode().strip()
+except OSError:
+    CBMC_VERSION = 'unknown'
+REUSE_DIR = os.path.join(os.environ.get('TMPDIR', '/tmp'), 'verif_reuse_%d' % os.getuid())     # optional: nothing here is needed by a check
 NCPU = int(os.environ.get('VERIF_JOBS', '12'))     # 12 solver processes at a time: 62 GB of RAM shared by memory-hungry SAT instances
 
 
@@ -199,6 +204,23 @@ def run_cbmc(cfile, entry, unwind, unwindset=(), timeout=900, mem_gb=12, extra=(
         cmd += ['--unwindset', ','.join(unwindset)]
     if trace:
         cmd += ['--trace', '--json-ui']
+    # identical query => identical verdict: the unit is regenerated from the working tree on every run; when the generated C, the runtime,
+    # the CBMC version and every argument are byte-identical to a query already decided (the same obligation is part of several
+    # properties), the recorded verdict is reused instead of solving the same formula again.  Only definite verdicts are recorded.
+    ckey = None
+    if not trace and os.environ.get('VERIF_NO_REUSE') != '1':
+        h = hashlib.sha256()
+        for fn_ in (cfile, os.path.join(VERIF, 'rt', 'rt.c'), os.path.join(VERIF, 'rt', 'rt.h')):
+            h.update(open(fn_, 'rb').read()); h.update(b'\0')
+        h.update(repr([a for a in cmd if a != cfile]).encode()); h.update(CBMC_VERSION.encode())
+        ckey = os.path.join(REUSE_DIR, h.hexdigest() + '.json')
+        try:
+            if time.time() - os.path.getmtime(ckey) < 6 * 3600:
+                c = json.load(open(ckey))
+                c['res']['reused_identical_query'] = True
+                return c['res'], c['out']
+        except (OSError, ValueError, KeyError):
+            pass
     rc, out, err, dt = sh(cmd, timeout=timeout, mem_gb=mem_gb)
     res = {'cmd': ' '.join(cmd), 'time_s': round(dt, 2), 'rc': rc}
     if rc == -9:
@@ -206,6 +228,19 @@ def run_cbmc(cfile, entry, unwind, unwindset=(), timeout=900, mem_gb=12, extra=(
         return res, out
     if trace:
         return res, out
+    res, out = classify_cbmc(res, out, err)
+    if ckey and res['status'] in ('success', 'failed'):
+        try:
+            os.makedirs(REUSE_DIR, exist_ok=True)
+            tmp = ckey + '.%d.tmp' % os.getpid()
+            json.dump({'res': res, 'out': '\n'.join(l for l in out.splitlines() if FAIL_RE.match(l.strip()) or 'VERIFICATION' in l)}, open(tmp, 'w'))
+            os.replace(tmp, ckey)
+        except OSError:
+            pass
+    return res, out
+
+
+def classify_cbmc(res, out, err):
     fails, total = [], 0
     for ln in out.splitlines():
         m = FAIL_RE.match(ln.strip())
@@ -298,6 +333,7 @@ def run_obligation(build, ob, tier, replay_dir, prop):
             ob.extra = tuple(ob.extra) + ('-DVERIF_FOOTPRINT',)
         res, out = run_cbmc(unit['c'], ob.entry, unwind, ob.unwindset, ob.timeout, ob.mem_gb, ob.extra)
         r['cbmc'] = {k: res[k] for k in ('time_s', 'status') if k in res}
+        r['cbmc']['reused'] = bool(res.get('reused_identical_query'))
         r['cbmc']['properties'] = res.get('properties', 0)
         if res.get('informational'):
             r['informational_pointer_arithmetic'] = sorted(set(f['desc'] + ' @' + f['id'].split('.')[0] for f in res['informational']))[:6]
@@ -351,7 +387,7 @@ def run_obligation(build, ob, tier, replay_dir, prop):
             queries += 1
             wf = [f for f in wres.get('failed', []) if 'WITNESS' in f['desc']]
             other = [f for f in wres.get('failed', []) if 'WITNESS' not in f['desc']]
-            r['witness'] = {'status': wres['status'], 'time_s': wres['time_s'], 'reached': bool(wf)}
+            r['witness'] = {'status': wres['status'], 'time_s': wres['time_s'], 'reached': bool(wf), 'reused': bool(wres.get('reused_identical_query'))}
             if wres['status'] == 'timeout':
                 r['status'] = 'inconclusive'; r['why'] = 'witness twin timeout'
             elif not wf or other:
@@ -500,6 +536,7 @@ def check_property(prop, tier, seed, only=None, keep=False, jobs=NCPU):
                     'of the harness is reachable, or when it produced a counterexample',
             'obligations': len(results), 'discharged': len(holds), 'inconclusive': len(inconc),
             'known_findings_matched': nk, 'violations': viol,
+            'verdicts_reused_from_identical_queries': sum(int(bool(r.get('cbmc', {}).get('reused'))) + int(bool(r.get('witness', {}).get('reused'))) for r in results),
             'solver_time_s': round(sum(r.get('cbmc', {}).get('time_s', 0) + r.get('witness', {}).get('time_s', 0) + r.get('smt_time_s', 0) for r in results), 1),
             'functions_encoded': functions,
             'units': sorted(set(o.harness for o in obls)),
